@@ -62,6 +62,25 @@ def inputs(ctx):
                 for lv in LEVELS[w]:
                     ins.append({"id": "t%d" % n, "case": c, "level": lv})
                     n += 1
+                    if part == "o" and u != "%":
+                        ins.append({"id": "t%d" % n, "case": c, "level": lv, "pre": w})
+                        n += 1
+    # one layout mixing units between its parts: a percentage origin with an absolute extent and the
+    # other way round (SAMI sources: % positions, px / pt margins), under every option pair
+    for ou, eu in (("%", "px"), ("%", "em"), ("%", "pt"), ("%", "c"), ("px", "%"), ("c", "%")):
+        def v(u, pct, absolute):
+            return _sz(pct if u == "%" else absolute, u)
+        lay = {"cls": "layout", "o": {"cls": "point", "x": v(ou, "10", "64"), "y": v(ou, "20", "72")},
+               "e": {"cls": "stretch", "h": v(eu, "40", "200" if eu != "c" else "12"), "v": v(eu, "30", "100" if eu != "c" else "5")}, "p": NONE}
+        for w in ("WebVTT", "DFXP", "SAMI"):
+            for rel in (False, True):
+                for fit in (False, True):
+                    for W, H in ((640, 360), (None, None)):
+                        c = {"lay": lay, "W": {"has": W is not None, "v": W or 1}, "H": {"has": H is not None, "v": H or 1},
+                             "relativize": rel, "fit": fit, "writer": w}
+                        for lv in LEVELS[w][:2]:
+                            ins.append({"id": "x%d" % n, "case": c, "level": lv})
+                            n += 1
     for k in range(600 if ctx.quick else 20000):
         w = rng.choice(["DFXP", "SAMI", "WebVTT"])
 
@@ -72,12 +91,13 @@ def inputs(ctx):
         u = rng.choice(units)
         mixed = rng.random() < 0.3
         pu = (lambda: rng.choice(units)) if mixed else (lambda: u)
+        eu = rng.choice(units) if mixed and rng.random() < 0.5 else u
         has_o = rng.random() < 0.7
         has_e = rng.random() < 0.5
         has_p = rng.random() < 0.4 and w != "WebVTT"
         lay = {"cls": "layout",
                "o": {"cls": "point", "x": _sz(val(u, 90), u), "y": _sz(val(u, 95), u)} if has_o else NONE,
-               "e": {"cls": "stretch", "h": _sz(val(u, 100), u), "v": _sz(val(u, 100), u)} if has_e else NONE,
+               "e": {"cls": "stretch", "h": _sz(val(eu, 100), eu), "v": _sz(val(eu, 100), eu)} if has_e else NONE,
                "p": {"cls": "padding", **{k2: _sz(val(x, 20), x) for k2, x in zip("base", [pu(), pu(), pu(), pu()])}} if has_p else NONE}
         W = rng.choice([None, 640, 1280, 1920, 720, 333])
         H = rng.choice([None, 360, 720, 1080, 480, 77])
@@ -152,6 +172,14 @@ def execute(inp):
     rec = {"k": "rel", "lay": c["lay"], "W": c["W"], "H": c["H"], "relativize": c["relativize"], "fit": c["fit"],
            "writer": c["writer"], "abs": False, "sees": {"eh": c["writer"] != "SAMI"}, "obs": _none8()}
     w = {"DFXP": DFXPWriter, "SAMI": SAMIWriter, "WebVTT": WebVTTWriter}[c["writer"]](**kw)
+    if inp.get("pre"):
+        # the very same set was first written by another writer for another video size: what that
+        # writer worked out (on its own copy) has nothing to do with this conversion
+        other = {"DFXP": SAMIWriter, "SAMI": WebVTTWriter, "WebVTT": DFXPWriter}[inp["pre"]]
+        try:
+            other(video_width=1280, video_height=960).write(cs)
+        except Exception:
+            pass
     try:
         out = w.write(cs)
     except Exception as e:
